@@ -1,4 +1,5 @@
 import CssVerif.Lemmas.SheetSpecSheet
+import CssVerif.Lemmas.SheetSpecNoC
 import CssVerif.Gen.C02Margins
 /-!
 # C02: an example spelled sheet with every rule kind, and the proof that it is well formed
@@ -73,6 +74,39 @@ theorem blk_wf (O : Oracle) (h : ∀ l, O.valueOk l = true) : blk.WF O := by
     subst hd
     exact dTop_wf O h
 
+/-- a declaration with comments inside its value and its gaps -/
+def dCm : SDecl :=
+  { name := cps "top", nameSp := [(true, false)], g1 := gc, g2 := gc,
+    value := [num "0", commentTok (cps "v"), sp, num "1"], g3 := gc,
+    prio := some (gc, cps "important", [], gc) }
+/-- a block with comment items, a declaration with comments, a stand-alone `;` -/
+def blkCm : SBlock :=
+  { lead := [sp1], items := [(.comment (cps "k"), [sp1]), (.decl dCm, [sp1]), (.semi, []), (.comment (cps "e"), [])],
+    last := some dTop }
+
+theorem dCm_noC_wf (O : Oracle) (h : ∀ l, O.valueOk l = true) : dCm.noC.WF O :=
+  ⟨nameOk_of _ (by decide) ⟨_, _, rfl, by decide⟩,
+   ⟨core_of _ ⟨_, _, rfl, by decide⟩ ⟨[num "0", sp], _, rfl, by decide⟩, by decide, by decide⟩,
+   by intro p hp; simp [dCm, SDecl.noC, noCPrio] at hp; subst hp; exact nameOk_of _ (by decide) ⟨_, _, rfl, by decide⟩,
+   h _⟩
+
+theorem dTop_noC_wf (O : Oracle) (h : ∀ l, O.valueOk l = true) : dTop.noC.WF O :=
+  ⟨nameOk_of _ (by decide) ⟨_, _, rfl, by decide⟩,
+   ⟨core_of _ ⟨_, _, rfl, by decide⟩ ⟨[num "0", sp], _, rfl, by decide⟩, by decide, by decide⟩,
+   by intro p hp; simp [dTop, SDecl.noC, noCPrio] at hp, h _⟩
+
+theorem blkCm_noC_wf (O : Oracle) (h : ∀ l, O.valueOk l = true) : blkCm.noC.WF O := by
+  refine ⟨?_, ?_⟩
+  · intro q hq
+    simp only [blkCm, SBlock.noC, noCItems, List.mem_cons, List.mem_nil_iff, or_false] at hq
+    rcases hq with rfl | rfl
+    · exact dCm_noC_wf O h
+    · trivial
+  · intro d hd
+    simp only [blkCm, SBlock.noC, Option.map_some, Option.some.injEq] at hd
+    subst hd
+    exact dTop_noC_wf O h
+
 theorem selCore (c : List Tok) (h1 : Core (strip c)) (h2 : Quiet .default [] c = true) (h3 : nest [] c = some [])
     (h4 : Quiet .listsep [] c = true) (h5 : noBrace c = true) : SelCoreOk c := ⟨h1, ⟨h2, h3⟩, h4, h5⟩
 
@@ -91,6 +125,26 @@ theorem style_wf (ns : List (Cps × Cps)) : StyleWF O ns sel blk := ⟨sel_wf, b
 theorem unk_ok : UnknownRuleOk M unk := by
   refine ⟨⟨_, _, rfl, rfl, by decide, ⟨[sp, idt "y", sp], semi, [], rfl, by decide, by decide, by decide, by decide, by decide⟩,
     by decide, by decide, by decide⟩, by decide, by decide, by decide +kernel⟩
+
+theorem sel_noC_wf : sel.noC.WF := by
+  refine ⟨selCore _ (core_of _ ⟨_, _, rfl, by decide⟩ ⟨[], _, rfl, by decide⟩) (by decide) (by decide) (by decide) (by decide),
+    ⟨_, _, rfl, by decide, by decide⟩, ?_⟩
+  intro q hq
+  simp only [sel, SSel.noC, noCMore, List.mem_cons, List.mem_nil_iff, or_false] at hq
+  subst hq
+  exact selCore _ (core_of _ ⟨_, _, rfl, by decide⟩ ⟨[], _, rfl, by decide⟩) (by decide) (by decide) (by decide) (by decide)
+
+/-- `/*c*/ a , /*c*/ b { /*k*/ TOP /*c*/ : /*c*/ 0/*v*/ 1 /*c*/ ! /*c*/ important /*c*/ ; ; /*e*/ top : 0 1 } /*e*/` -/
+def sheetCm : SSheet :=
+  { rules := .cons (.comment (cps "c")) [sp1] (.cons (.style sel blkCm) [sp1] (.cons (.comment (cps "e")) [] .nil)) }
+
+theorem sheetCm_noC_wf : sheetCm.noC.WF O M := by
+  refine ⟨?_, ?_, ?_, by decide, by decide, ?_, ?_⟩
+  · intro c hc; simp [sheetCm, SSheet.noC] at hc
+  · intro p hp; simp [sheetCm, SSheet.noC, noCImps] at hp
+  · intro p hp; simp [sheetCm, SSheet.noC, noCNss, noCImps] at hp
+  · intro p hp; simp [sheetCm, SSheet.noC, noCVars] at hp
+  · exact And.intro (show StyleWF O _ sel.noC blkCm.noC from ⟨sel_noC_wf, blkCm_noC_wf O yes_value, rfl⟩) trivial
 
 theorem mq_ok : MqOk [idt "print"] :=
   ⟨core_of _ ⟨_, _, rfl, by decide⟩ ⟨[], _, rfl, by decide⟩, ⟨by decide, by decide⟩, by decide, by decide⟩
